@@ -77,6 +77,11 @@ func (cln *CLNClient) ConnectionStatus() error {
 }
 
 func (cln *CLNClient) CreateInvoice(amount uint64) (Invoice, error) {
+	// the node is asked in millisatoshi
+	if amount > math.MaxUint64/1000 {
+		return Invoice{}, errors.New("amount is too large")
+	}
+
 	r := rand.New(rand.NewPCG(uint64(time.Now().UnixMicro()), uint64(time.Now().UnixMilli())))
 
 	body := map[string]interface{}{
